@@ -153,7 +153,7 @@ def run(ctx):
     counter = itertools.count()
     combos = [(k, v, c, p) for k in S.KEY_MAPS for v in S.VALUE_MAPS for c in S.COMPRESSIONS for p in (True, False)]
     try:
-        n_trees = 60 if ctx.thorough else 18
+        n_trees = 90 if ctx.thorough else 48
         ci = 0
         # corpus: clone below a sibling of its first occurrence; same data under two explicit ids; kinds differ
         corpus = [
@@ -181,8 +181,8 @@ def run(ctx):
             if ctx.thorough:
                 todo = combos
             else:
-                todo = [combos[(ci + 7 * j) % len(combos)] for j in range(12)]
-                ci += 12
+                todo = [combos[(ci + 7 * j) % len(combos)] for j in range(18)]
+                ci += 18
             for km, vm, comp, use_path in todo:
                 one_case(ctx, out, cfg, spec, tree, cls, km, vm, comp, use_path, tmpdir, counter)
                 out.count((repr(spec), cfg, km, vm, repr(comp), use_path), tree.count >= 3 and tree.count_unique < tree.count)
